@@ -41,6 +41,8 @@ fn spaces(tier: Tier) -> Vec<Space> {
             Space { alpha: "SELFX", depth: 3 },
             Space { alpha: "CASC", depth: 2 },
             Space { alpha: "CASC", depth: 3 },
+            Space { alpha: "TERN", depth: 2 },
+            Space { alpha: "TERN", depth: 3 },
             Space { alpha: "QSYM", depth: 3 },
             Space { alpha: "QSYM", depth: 4 },
             Space { alpha: "A1", depth: 2 },
@@ -64,6 +66,8 @@ fn spaces(tier: Tier) -> Vec<Space> {
             Space { alpha: "SELFX", depth: 3 },
             Space { alpha: "CASC", depth: 2 },
             Space { alpha: "CASC", depth: 3 },
+            Space { alpha: "TERN", depth: 2 },
+            Space { alpha: "TERN", depth: 3 },
             Space { alpha: "QSYM", depth: 3 },
             Space { alpha: "QSYM", depth: 4 },
             Space { alpha: "T3", depth: 2 },
@@ -254,10 +258,13 @@ impl Prop for Inv {
         true
     }
     fn segments(&self, tier: Tier, _cfg: &str) -> Vec<Seg> {
-        let mut v: Vec<Seg> = self.segs(tier).iter().map(|s| s.seg.clone()).collect();
+        // the test-language segments come FIRST: they are small, and a wall budget that runs out in the large multiset
+        // segments must not cut them off
+        let mut v: Vec<Seg> = Vec::new();
         for (name, depth, count) in lang_segments(tier) {
             v.push(Seg { name: format!("{name}-ops^{depth}"), count, what: format!("one index = one ordered sequence of {depth} operations (insert, union, rewrite iteration with the language's own rules, ematch) over a copy of the repository's test language {name}") });
         }
+        v.extend(self.segs(tier).iter().map(|s| s.seg.clone()));
         v
     }
     fn goals(&self) -> Vec<&'static str> {
@@ -271,25 +278,28 @@ impl Prop for Inv {
     }
     fn describe(&self, tier: Tier, _cfg: &str, seg: usize, idx: u64) -> Value {
         let segs = self.segs(tier);
-        if seg >= segs.len() {
+        let nl = lang_segments(tier).len();
+        if seg < nl {
             let ls = lang_segments(tier);
-            let (name, depth, _) = &ls[seg - segs.len()];
+            let (name, depth, _) = &ls[seg];
             let sp = crate::props::inv_langs::specs();
             let (si, spec) = sp.iter().enumerate().find(|(_, s)| s.name == *name).unwrap();
             let _ = si;
             return json!({"language": name, "sequence": crate::props::inv_langs::decode(spec, *depth, idx).iter().map(|o| crate::props::inv_langs::show(spec, o)).collect::<Vec<_>>()});
         }
-        let ops = decode(&segs[seg], idx);
+        let ops = decode(&segs[seg - nl], idx);
         json!({"multiset": ops.iter().map(|o| o.show()).collect::<Vec<_>>()})
     }
     fn exec(&self, tier: Tier, _cfg: &str, seg: usize, idx: u64) -> Exec {
         let segs = self.segs(tier);
-        if seg >= segs.len() {
+        let nl = lang_segments(tier).len();
+        if seg < nl {
             let ls = lang_segments(tier);
-            let (name, depth, _) = &ls[seg - segs.len()];
+            let (name, depth, _) = &ls[seg];
             let si = crate::props::inv_langs::specs().iter().position(|s| s.name == *name).unwrap();
             return crate::props::inv_langs::exec_lang(si, *depth, idx);
         }
+        let seg = seg - nl;
         let ops = decode(&segs[seg], idx);
         let flips = match tier {
             Tier::Quick => Flips::NoneAndAll,
@@ -298,7 +308,7 @@ impl Prop for Inv {
         let mut out = Exec::default();
         // the analysis variant doubles the cost: it is run for the small, interaction-rich alphabets
         let segname = segs[seg].seg.name.clone();
-        let analysis_too = segname.starts_with("SHARE") || segname.starts_with("SAME") || segname.starts_with("SELFX") || segname.starts_with("CASC") || segname.starts_with("MICRO") || segname == "CORE^2" || segname.starts_with("SELF^1") || (tier == Tier::Thorough && (segname == "CORE^3" || segname.starts_with("T3")));
+        let analysis_too = segname.starts_with("SHARE") || segname.starts_with("SAME") || segname.starts_with("SELFX") || segname.starts_with("CASC") || segname.starts_with("TERN") || segname.starts_with("MICRO") || segname == "CORE^2" || segname.starts_with("SELF^1") || (tier == Tier::Thorough && (segname == "CORE^3" || segname.starts_with("T3")));
         for (hist, with_analysis) in variants(&ops, flips).into_iter().flat_map(|h| if analysis_too { vec![(h.clone(), false), (h, true)] } else { vec![(h, false)] }) {
             let h2 = hist.clone();
             let r = fresh_thread(move || if with_analysis { run_one::<crate::props::equiv::MinSize>(&h2) } else { run_one::<()>(&h2) });
